@@ -254,6 +254,11 @@ pub fn run(cx: &mut Cx) {
             if !p.contains('{') && !p.contains('}') {
                 continue;
             }
+            // an edit can leave the braces nested but multiply the number of
+            // expansions (a group split in two): keep the bound
+            if opat::braces_nested(&p) && opat::count_expansions(&p, cap) > cap {
+                continue;
+            }
         }
         // candidate names
         let mut names: Vec<String> = vec![];
@@ -281,15 +286,24 @@ pub fn run(cx: &mut Cx) {
         names.sort();
         names.dedup();
         let (groups, depth) = brace_stats(&p);
+        // Step budget proportional to the work the specification itself
+        // demands: every name may have to be tried against every expansion,
+        // and each expansion is re-assembled once per group on its path.
+        let ex = if opat::braces_nested(&p) && !p.contains("{}") { opat::count_expansions(&p, cap) as u64 } else { 1 };
+        let work = (names.len() as u64 + 2) * (ex + 1) * (groups as u64 + 2);
+        cx.set_budget(100_000 + 64 * work, (100_000 + 64 * work).saturating_mul(p.len() as u64 + 256));
         cx.check(
             || format!("pattern {p:?} names {names:?}"),
             |ev| {
                 ev.add("names/mispairing-not-in-expansion", mis_outside);
+                ev.max("max/work-units(names x expansions x groups)", work);
                 ev.count("workload/trees");
                 check_case(ev, &p, &names, groups, depth)
             },
         );
     }
+
+    cx.default_budget();
 
     // Exhaustive sweep over short strings of the brace alphabet.
     if cx.tier != Tier::Mini {
